@@ -393,9 +393,15 @@ func PolKVLess(i, j PolKV) bool {
 		// Order is equal, use namespace/name/kind to break ties.
 		// We start with the most specific (name) to least specific (kind), as
 		// it's more intuitive to have policies sorted that way.
-		iStr := fmt.Sprintf("%s/%s/%s", i.Key.Name, i.Key.Namespace, i.Key.Kind)
-		jStr := fmt.Sprintf("%s/%s/%s", j.Key.Name, j.Key.Namespace, j.Key.Kind)
-		return iStr < jStr
+		// Compare the fields one by one: joining them with a separator would let
+		// the separator take part in the comparison ("foo-bar" < "foo/...").
+		if i.Key.Name != j.Key.Name {
+			return i.Key.Name < j.Key.Name
+		}
+		if i.Key.Namespace != j.Key.Namespace {
+			return i.Key.Namespace < j.Key.Namespace
+		}
+		return i.Key.Kind < j.Key.Kind
 	}
 	return i.Value.Order < j.Value.Order
 }
